@@ -419,6 +419,9 @@ class Sym:
             return ("attr", v, e.attr)
         if isinstance(e, ast.Subscript):
             v, i = rec(e.value), rec(e.slice)
+            if v[:1] == ("tuple",) and i[:1] == ("const",) and i[1].lstrip("-").isdigit() and isinstance(getattr(e, "ctx", None), ast.Load) \
+                    and -len(v[1]) <= int(i[1]) < len(v[1]) and not any(x[:1] == ("uop",) for x in v[1]):
+                return v[1][int(i[1])]      # (a, b)[1] is b
             if i[:1] == ("index",) and i[1] == v and isinstance(getattr(e, "ctx", None), ast.Load):
                 return ("elem", v)      # X[i] with i a position of X (same iteration): the element
             return ("sub", v, i)
